@@ -15,6 +15,11 @@ fn main() {
     let env = Env::from_env();
     match args.get(1).map(|s| s.as_str()) {
         Some("smoke") => smoke(&env),
+        Some("selftest") => {
+            let code = selftest(&env);
+            env.cleanup();
+            std::process::exit(code);
+        }
         Some("C18-dump") => {
             for s in c18::fixed_scenarios(simcore::rng::verif_seed()) {
                 println!("{} kind={} sub={} paging={} args={:?} stdin={} child_stdout={} child_stderr={}", s.name, s.kind, s.sub, s.paging, s.spec.args, s.spec.stdin.0.len(), s.spec.child.as_ref().map(|c| c.stdout.0.len()).unwrap_or(0), s.spec.child.as_ref().map(|c| c.stderr.0.len()).unwrap_or(0));
@@ -68,5 +73,79 @@ fn smoke(env: &Env) {
     println!("received={} stdout={}", r.pager_received.as_ref().map(|v| v.len()).unwrap_or(0), r.stdout.len());
     for e in r.events.iter() {
         println!("{} {} {:?}", e.who, e.kind, e.kv);
+    }
+}
+
+
+/// Determinism self-test of engine E1: every (scenario, fault) pair executed twice, at two
+/// different worker counts, must give the same event history (delta's own event subsequence with
+/// pids removed, exit status, delivered bytes); plus a canary that the shim owns hash keys and clock.
+fn selftest(env: &Env) -> i32 {
+    use std::collections::BTreeSet;
+    let seed = simcore::rng::verif_seed();
+    let n: usize = std::env::var("SELFTEST_N").ok().and_then(|s| s.parse().ok()).unwrap_or(400);
+    let mut tasks: Vec<(c18::Scenario, c18::Fault)> = Vec::new();
+    for i in 0..n {
+        let s = c18::gen_scenario(seed.wrapping_add(77), i, false);
+        let mut rng = Rng::new(simcore::rng::mix(seed, &[simcore::rng::tag("selftest"), i as u64]));
+        let f = match rng.below(4) {
+            0 => c18::Fault::None,
+            1 => c18::Fault::Epipe { k: rng.below(40) as i64 },
+            2 => c18::Fault::Transparent { wplan: vec![-1, 0, 3, 1], rchunks: vec![5, 0, 64] },
+            _ => c18::Fault::Sigint { at: "W".into(), stall: rng.chance(1, 2) },
+        };
+        tasks.push((s, f));
+    }
+    let pass = |jobs: &str| -> Vec<String> {
+        std::env::set_var("VERIF_JOBS", jobs);
+        pool::par_map(&env.scratch, &tasks, &|ctx, _i, t: &(c18::Scenario, c18::Fault)| {
+            let spec = c18::apply(&t.0, &t.1);
+            match run(env, &spec, &ctx.dir.join("run"), false) {
+                Ok(r) => format!("{}|out={:016x}|pager={:016x}|err={:016x}", r.fingerprint(), simcore::rng::fnv64(&r.stdout), simcore::rng::fnv64(&r.pager_received.clone().unwrap_or_default()), simcore::rng::fnv64(&r.stderr.iter().copied().filter(|b| !b.is_ascii_digit()).collect::<Vec<u8>>())),
+                Err(e) => format!("error {}", e),
+            }
+        })
+        .into_iter()
+        .map(|x| x.unwrap())
+        .collect()
+    };
+    let a = pass("16");
+    let b = pass("4");
+    let c = pass("1x".trim_end_matches('x'));
+    let mut bad = 0;
+    for i in 0..tasks.len() {
+        if a[i] != b[i] || a[i] != c[i] {
+            bad += 1;
+            if bad <= 3 {
+                eprintln!("DIVERGENCE in task {} ({} / {:?}):\n--- run 1 ---\n{}\n--- run 2 ---\n{}\n--- run 3 ---\n{}", i, tasks[i].0.kind, tasks[i].1, a[i], b[i], c[i]);
+            }
+        }
+    }
+    std::env::remove_var("VERIF_JOBS");
+    // canary
+    let mut orders: BTreeSet<String> = BTreeSet::new();
+    let mut canary_ok = true;
+    if let Ok(canary) = std::env::var("CANARY_BIN") {
+        let cenv = Env { delta_bin: canary.into(), shim: env.shim.clone(), stubs: env.stubs.clone(), scratch: env.scratch.clone(), timeout: env.timeout };
+        for hs in 0..40u64 {
+            let mut spec = RunSpec::default();
+            spec.plan = Plan::basic(hs);
+            let r1 = run(&cenv, &spec, &env.scratch.join("canary"), false).map(|r| String::from_utf8_lossy(&r.stdout).to_string()).unwrap_or_default();
+            let r2 = run(&cenv, &spec, &env.scratch.join("canary"), false).map(|r| String::from_utf8_lossy(&r.stdout).to_string()).unwrap_or_default();
+            if r1 != r2 || !r1.trim_end().ends_with(" 1700000000") {
+                canary_ok = false;
+                eprintln!("canary: seed {} gave {:?} then {:?}", hs, r1, r2);
+            }
+            orders.insert(r1);
+        }
+        if orders.len() < 10 {
+            canary_ok = false;
+        }
+    }
+    println!("selftest: {} (scenario, fault) pairs x 3 executions (16, 4, 1 workers): {} divergences; canary: {} distinct hash-map orders over 40 seeds, reproducible and clock pinned: {}", tasks.len(), bad, orders.len(), canary_ok);
+    if bad == 0 && canary_ok {
+        0
+    } else {
+        2
     }
 }
